@@ -11,7 +11,8 @@ EXTENDS Naturals, Integers, Sequences, FiniteSets, FiniteSetsExt, TLC
 
 CONSTANTS D, W, Items, Weights, MaxLen, Bound,
           QueryOtherHash,  \* named deviation: query uses a different location than update for row 1
-          BatchCellOnce    \* named deviation: a vectorised batch_add (M[i, locs] += w) touches every cell at most once per call
+          BatchCellOnce,   \* named deviation: a vectorised batch_add (M[i, locs] += w) touches every cell at most once per call
+          LookupInserts    \* named deviation: looking up the running count of a value creates a zero entry for it (defaultdict storage)
 
 VARIABLES hashf, Mx, truth, total, steps, cnt, ctruth, chist
 vars == <<hashf, Mx, truth, total, steps, cnt, ctruth, chist>>
@@ -50,11 +51,16 @@ CAdd(x) == /\ Len(chist) < MaxLen
            /\ chist' = Append(chist, x)
            /\ UNCHANGED <<hashf, Mx, truth, total, steps>>
 
+\* a caller reads the running count of a value (seen or not): not a feed - the counter is unchanged
+CLookup(x) == /\ Len(chist) < MaxLen
+              /\ cnt' = IF LookupInserts /\ x \notin DOMAIN cnt THEN [k \in (DOMAIN cnt) \cup {x} |-> IF k = x THEN 0 ELSE cnt[k]] ELSE cnt
+              /\ UNCHANGED <<hashf, Mx, truth, total, steps, ctruth, chist>>
+
 Next == (\E x \in Items : \E w \in Weights : Update(x, w)) \/ (\E x \in Items : CAdd(x))
 NextCMS == \E x \in Items : \E w \in Weights : Update(x, w)
 NextCMSBatch == \/ \E x \in Items : \E w \in Weights : Update(x, w)
                 \/ \E lst \in BatchLists : \E w \in Weights : BatchUpdate(lst, w)
-NextCounter == \E x \in Items : CAdd(x)
+NextCounter == \E x \in Items : (CAdd(x) \/ CLookup(x))
 Spec == Init /\ [][Next]_vars
 
 \* ---- C15
